@@ -103,6 +103,10 @@ def check(ctx):
     check_roles(ctx)
     check_identity_assert(ctx)
     check_group_of_parent(ctx)
+    check_query_names_as_in_file(ctx)
+    # the settings reach the stages as configured (sa/rules/forwarding.py)
+    from ..rules.forwarding import check_config_settings_as_requested
+    check_config_settings_as_requested(ctx, {'min_markers'})
     check_errors(ctx)
     check_single_child(ctx)
     check_empty_list_rejections(ctx)
@@ -912,3 +916,65 @@ def check_group_of_parent(ctx, rule='R-PROV/group-of-parent'):
         raise AnalysisError('assemble_query_data: the reads of the '
                             "'reference' and 'query' positions of the "
                             'parent group were not found')
+
+
+def check_query_names_as_in_file(ctx, rule='R-PROV/query-names-as-in-file'):
+    """genes are reconciled *by name*: marker table, reference and query
+    are compared by the identifiers as they stand.  When no mapping to
+    Ensembl was asked for (map_to_ensembl false), the list of query gene
+    names handed to the reconciliation is the var index of the query file
+    as read: under that assumption every definition of the returned list
+    that can reach the return of _get_query_gene_names is the plain read
+    (`list(var.index.values)`), with no per-name rewriting (comprehension,
+    split / replace / strip / upper ...) in between."""
+    from ..core.constprop import feasible
+    db = ctx.db
+    fi = db.fn('utils.cli_utils:_get_query_gene_names')
+    ctx.touch(fi)
+    cfg = cfg_of(fi)
+    rd = rd_of(fi)
+
+    def assume(e, env):
+        if isinstance(e, ast.Name) and e.id == 'map_to_ensembl':
+            return False
+        return UNKNOWN
+    feas = feasible(fi, assume, follow_exc=False)
+    n = 0
+    for r in cfg.nodes:
+        if r.kind != 'return' or r.id not in feas.nodes \
+                or r.ast.value is None:
+            continue
+        v = r.ast.value
+        first = v.elts[0] if isinstance(v, ast.Tuple) and v.elts else v
+        exprs = []
+        if isinstance(first, ast.Name):
+            for d in rd.reaching(first.id, r.id):
+                if d.node in feas.nodes and getattr(
+                        d, 'value', None) is not None:
+                    exprs.append(d.value)
+        else:
+            exprs.append(first)
+        for e in exprs:
+            n += 1
+            bad = None
+            for x in ast.walk(e):
+                if isinstance(x, (ast.ListComp, ast.GeneratorExp,
+                                  ast.DictComp, ast.SetComp, ast.Lambda)):
+                    bad = x
+                elif isinstance(x, ast.Call):
+                    f = x.func
+                    nm = f.attr if isinstance(f, ast.Attribute) else \
+                        getattr(f, 'id', None)
+                    if nm not in ('list', 'array', 'asarray', 'tolist',
+                                  'to_numpy', 'read_df_from_h5ad'):
+                        bad = x
+            ctx.ob(rule, f'{fi.qual}:names#{n - 1}', fi.loc(e), bad is None,
+                   'without a mapping the query gene names are the var '
+                   'index as read' if bad is None else
+                   f'with map_to_ensembl false the query gene names are '
+                   f'`{unparse(e)[:70]}`: the names are rewritten before '
+                   'they are compared with the marker table, so a marker '
+                   'present in the query under its own name is not found')
+    if n == 0:
+        raise AnalysisError('_get_query_gene_names: no feasible return '
+                            'under map_to_ensembl=False')
